@@ -12,6 +12,7 @@ vars == <<l, run, prev, ids>>
 RViol == 1 RLines == 2 RTraces == 3 REvents == 10 RPipes == 11 RQuery == 12 RLater == 13 RZeroProb == 14 RSubTick == 15 RNegDraw == 16 RUndecided == 17
 Regs == {1, 2, 3} \cup 10..17
 RPairs == 18
+RIdsOnly == 19
 Bump(r, n) == TLCSet(r, TLCGet(r) + n)
 Flag(e, name, ok, detail) == IF ok THEN TRUE ELSE PrintT(<<"VIOL", e.tid, 0, name, detail>>) /\ Bump(RViol, 1)
 RECURSIVE SumSeq(_)
@@ -93,13 +94,24 @@ CheckPair(e) ==
        /\ Bump(RPairs, 1)
        /\ Flag(e, "C15.RatioShiftsMix.cpu", ProdCmp(<<e.hi.cpu, e.lo.n>>, <<e.lo.cpu, e.hi.n>>) = 1, <<"ratio 0", e.lo, "ratio 1", e.hi>>)
        /\ Flag(e, "C15.RatioShiftsMix.read", ProdCmp(<<e.hi.read, e.lo.n>>, <<e.lo.read, e.hi.n>>) = -1, <<"ratio 0", e.lo, "ratio 1", e.hi>>)
-Init == l = 1 /\ run = [tid |-> -1] /\ prev = NoPrev /\ ids = {} /\ \A r \in Regs \cup {RPairs} : TLCSet(r, 0)
+\* a long run reported by identifiers only ("idhdr" then "ids" lines of a few thousand identifiers each, in emission order):
+\* freshness over MANY pipelines of one generator instance (tens of thousands) without the per-pipeline draw clauses
+CheckIdHdr(e) == Bump(RTraces, 1) /\ run' = e /\ prev' = NoPrev /\ ids' = {}
+CheckIds(e) ==
+  /\ Flag(run, "C15.FreshIds", (\A k \in 1..Len(e.ids) : e.ids[k] \notin ids) /\ Cardinality({e.ids[k] : k \in 1..Len(e.ids)}) = Len(e.ids),
+          <<"pipelines", e.from, "to", e.from + Len(e.ids) - 1, "repeated", {e.ids[k] : k \in {j \in 1..Len(e.ids) : e.ids[j] \in ids \/ \E j2 \in 1..(j - 1) : e.ids[j2] = e.ids[j]}}>>)
+  /\ Bump(RIdsOnly, Len(e.ids))
+  /\ ids' = ids \cup {e.ids[k] : k \in 1..Len(e.ids)} /\ UNCHANGED <<run, prev>>
+Init == l = 1 /\ run = [tid |-> -1] /\ prev = NoPrev /\ ids = {} /\ \A r \in Regs \cup {RPairs, RIdsOnly} : TLCSet(r, 0)
 Next == /\ l <= Len(TraceLog)
         /\ LET e == TraceLog[l] IN
            CASE e.kind = "pair" -> CheckPair(e) [] e.kind = "hdr" -> CheckHdr(e) [] e.kind = "ev" -> CheckEv(e) [] e.kind = "end" -> CheckEnd(e)
+                [] e.kind = "idhdr" -> CheckIdHdr(e) [] e.kind = "ids" -> CheckIds(e)
         /\ TLCSet(RLines, l) /\ l' = l + 1
 Spec == Init /\ [][Next]_vars
+\* the monitor is deterministic: the position in the log identifies the state (TLC then fingerprints one integer, not the set of ids seen)
+Position == l
 Consumed == /\ PrintT(<<"COUNT", "runs", TLCGet(RTraces), "events", TLCGet(REvents), "pipelines", TLCGet(RPipes), "query_pipelines", TLCGet(RQuery), "later_operators", TLCGet(RLater),
-                        "zero_prob_classes", TLCGet(RZeroProb), "runs_subtick_mean", TLCGet(RSubTick), "opcount_draws_below_one", TLCGet(RNegDraw), "events_undecidable_call_pattern", TLCGet(RUndecided), "ratio_pairs", TLCGet(RPairs)>>)
+                        "zero_prob_classes", TLCGet(RZeroProb), "runs_subtick_mean", TLCGet(RSubTick), "opcount_draws_below_one", TLCGet(RNegDraw), "events_undecidable_call_pattern", TLCGet(RUndecided), "ratio_pairs", TLCGet(RPairs), "pipelines_identity_only", TLCGet(RIdsOnly)>>)
             /\ PrintT(<<"SUMMARY", "viol", TLCGet(RViol), "lines", TLCGet(RLines), "traces", TLCGet(RTraces)>>)
 =============================================================================
